@@ -65,3 +65,10 @@ Section Spend.
     | None => false
     end.
 End Spend.
+
+(* ---- well-formedness side conditions used by the theorem statements ---- *)
+Definition key33 (k : bytes) : Prop := blen k = 33.      (* compressed pubkey *)
+Definition xonly (k : bytes) : Prop := blen k = 32.      (* BIP-340 x-only pubkey *)
+Definition hash20 (d : bytes) : Prop := blen d = 20.
+Definition u32 (n : N) : Prop := n < 4294967296.         (* int64(uint32 x) template numbers *)
+Definition elem_ok (s : bytes) : Prop := blen s <= 520.  (* any witness item the engine admits *)
